@@ -47,9 +47,21 @@ def configs(tier, seed):
                 heavy = (solver == "IG_symL") or (solver == "MD_ls" and cut == 25) or iters >= 3 or (sizes != (2, 2, 2) and iters >= 2)
                 if tier == "quick" and solver in ("RDA", "IG") and iters >= 2 and fam not in ("oneway", "single", "empty"):
                     continue      # the mixtures of two BP outputs on overlapping cliques are in the thorough tier (minutes each)
+                if tier == "thorough":
+                    # measured: the full cross product does not finish in 90 min; the expensive combinations are kept where they add a new path shape
+                    if sizes != (2, 2, 2) and (iters >= 2 or fam not in ("two_overlap", "triangle", "oneway")):
+                        continue
+                    if solver == "MD_ls" and cut == 25 and fam not in ("single", "oneway", "two_overlap"):
+                        continue
+                    if iters >= 3 and fam not in ("oneway", "single"):
+                        continue
+                    if solver == "IG_symL" and fam not in ("single", "oneway"):
+                        continue
+                    if solver in ("RDA", "IG") and iters == 2 and fam not in ("oneway", "single", "empty", "two_overlap", "nested_perm"):
+                        continue
                 cfgs.append(dict(name="est:%s:%s:%s:i%d:c%s" % (fam, sizes, solver, iters, cut), kind="estimate", fam=fam, sizes=sizes,
                                  solver=solver, iters=iters, cut=cut, total="given", core=not heavy, cost=30 if heavy else 5,
-                                 timeout=900 if heavy else 300))
+                                 timeout=600 if heavy else 300))
         if tier == "thorough":
             for fam in ("two_overlap", "oneway"):
                 cfgs.append(dict(name="est:%s:%s:MD_step:i1:total_omitted" % (fam, sizes), kind="estimate", fam=fam, sizes=sizes,
